@@ -176,26 +176,40 @@ def search_aad(ob, seed):
     return None
 
 
-@unit(
-    "C12.L2 AAD injective in the identity, L3 cursor/call AADs disjoint (=> L8: accepted means same identity, same kind)",
-    targets=["vgi_rpc/http/server/_state_token.py::_compute_aad", "vgi_rpc/http/server/_state_token.py::_compute_call_aad"],
-    replay=replay_aad,
-    search=search_aad,
-    min_obligations=100,
-)
-def aad(S):
-    # identity 1 = the identity a token was minted for, identity 2 = the requester's
-    s1 = AUTH_SHAPES[S.choose(len(AUTH_SHAPES))]
-    s2 = AUTH_SHAPES[S.choose(len(AUTH_SHAPES))]
-    a1, i1 = mk_auth(S, "1", s1)
-    a2, i2 = mk_auth(S, "2", s2)
-    cur1, cur2 = invoke(S, st._compute_aad, a1).value, invoke(S, st._compute_aad, a2).value
-    cal1, cal2 = invoke(S, st._compute_call_aad, a1).value, invoke(S, st._compute_call_aad, a2).value
-    S.canary("L2.canary.injective_without_nul_free_domains", Implies(eq(cur1, cur2), same_identity(i1, i2)))
-    S.assume(And(nul_free(i1[1]), nul_free(i2[1])))  # the property's quantifier: domains are NUL-free
-    S.oblige("L2.cursor_aad_injective", Implies(eq(cur1, cur2), same_identity(i1, i2)), kind="lemma")
-    S.oblige("L2.call_aad_injective", Implies(eq(cal1, cal2), same_identity(i1, i2)), kind="lemma")
-    S.oblige("L3.cursor_aad_differs_from_call_aad", And(Not(eq(cur1, cal2)), Not(eq(cur2, cal1))), kind="lemma")
+def aad_unit(which):
+    """which: 'cursor' / 'call' (L2 injectivity of one AAD function) or 'cross' (L3 cursor vs call).  One function pair
+    per unit keeps each lemma's context to the facts of two encode() calls (the string solvers are sensitive to it)."""
+
+    def run(S):
+        S.prune_lia = True
+        # identity 1 = the identity a token was minted for, identity 2 = the requester's
+        s1 = AUTH_SHAPES[S.choose(len(AUTH_SHAPES))]
+        s2 = AUTH_SHAPES[S.choose(len(AUTH_SHAPES))]
+        a1, i1 = mk_auth(S, "1", s1)
+        a2, i2 = mk_auth(S, "2", s2)
+        f1 = st._compute_call_aad if which == "call" else st._compute_aad
+        f2 = st._compute_aad if which == "cursor" else st._compute_call_aad
+        x1, x2 = invoke(S, f1, a1).value, invoke(S, f2, a2).value
+        if which == "cross":
+            S.oblige("L3.cursor_aad_differs_from_call_aad", Not(eq(x1, x2)), kind="lemma")
+            S.canary("L3.canary.cursor_aad_differs_from_cursor_aad", Not(eq(x1, invoke(S, st._compute_aad, a2).value)))
+            return
+        if which == "cursor":
+            S.canary("L2.canary.injective_without_nul_free_domains", Implies(eq(x1, x2), same_identity(i1, i2)))
+        S.assume(And(nul_free(i1[1]), nul_free(i2[1])))  # the property's quantifier: domains are NUL-free
+        S.oblige(f"L2.{which}_aad_injective", Implies(eq(x1, x2), same_identity(i1, i2)), kind="lemma")
+
+    return run
+
+
+for _w, _t in (("cursor", "L2 cursor AAD is injective in the identity"), ("call", "L2 call AAD is injective in the identity"), ("cross", "L3 cursor and call AADs never coincide")):
+    unit(
+        f"C12.{_t} (=> L8: a token that opens was minted for the same identity and is of the same kind)",
+        targets=["vgi_rpc/http/server/_state_token.py::_compute_aad", "vgi_rpc/http/server/_state_token.py::_compute_call_aad"],
+        replay=replay_aad,
+        search=search_aad,
+        min_obligations=30,
+    )(aad_unit(_w))
 
 
 # ------------------------------------------------------------------------------------------
@@ -260,6 +274,33 @@ def install_codecs(S):
     S.inline.update({"_pack_plaintext", "_unpack_plaintext", "_read_segment"})
 
 
+def rpc_400(message):
+    cause = SExc(RuntimeError, (message,))
+    return SExc(_RpcHttpError, (cause,), attrs={"cause": cause, "status_code": HTTPStatus.BAD_REQUEST})
+
+
+def install_read_segment_contract(S):
+    """_read_segment by its contract (proved in O4a): for pos >= 0 either HTTP 400, or the segment whose
+    uint32-LE header sits at pos: seg = data[pos+4 : pos+4+n], n = header value, end = pos+4+n <= len(data)."""
+    S.inline.discard("_read_segment")
+
+    def read_segment(S, data, pos, message):
+        S.oblige("O4a.pre.read_segment_called_with_nonnegative_offset", pos >= 0 if isinstance(pos, SInt) else pos >= 0, kind="pre")
+        pos = pos if isinstance(pos, SInt) else SInt(z3.IntVal(pos))
+        n = data.length()
+        ln = SInt(z3.Int(S.fresh_name("seg_len")))
+        S.assume(And(ln >= 0, ln < U32))
+        if not S.fork(And(pos + 4 <= n, pos + 4 + ln <= n, ln == SInt(models._UNLE[4](sub(data.t, pos, 4))))):
+            # (an offset whose header does not lie inside the data, or whose announced length overruns it)
+            S.assume(Or(pos + 4 > n, And(ln == SInt(models._UNLE[4](sub(data.t, pos, 4))), pos + 4 + ln > n)))
+            raise PyRaise(rpc_400(message))
+        seg = SBytes(z3.String(S.fresh_name("seg")))
+        S.assume(And(SBool(is_bytes_term(seg.t)), seg.length() == ln, eq(seg, B(sub(data.t, pos + 4, ln)))))
+        return (seg, pos + 4 + ln)
+
+    S.handlers["_read_segment"] = read_segment
+
+
 def install_clock(S):
     now = S.int("now")
     S.assume(now >= 0)
@@ -304,6 +345,83 @@ def reference_rejection(S):
     if not (out.raised and isinstance(out.exc, SExc)):
         return (None, None, None)
     return detail(out.exc)
+
+
+CLASSES = ("failed_authentication", "malformed_base64", "expired")
+
+
+def genuine_payload(kind, created=0):
+    import struct
+
+    return b"\x00" + struct.pack("<Q", created) + bytes(16) + struct.pack("<I", 0) * KINDS[kind]["nseg"]
+
+
+def class_details(S, kind):
+    """What the real opener answers, class by class, on one concrete representative of each class named in the
+    property: a well-formed envelope that fails AEAD authentication (tampered / foreign key / other identity /
+    swapped kind), a token that is not base64 (re-encoded / truncated), a genuine token past its TTL.  Run through
+    the real code (concrete values), so the obligations built from them have a trivial path condition."""
+    saved, saved_inline = dict(S.handlers), set(S.inline)
+    S.inline.add("_read_segment")
+    S.handlers.pop("_read_segment", None)
+
+    def refuse(S, token, key, *, aad, version=1):
+        raise PyRaise(SExc(crypto.SealError, ("token verification failed",)))
+
+    def run(token, aead, now=0, ttl=0):
+        S.handlers[crypto.open_bytes] = aead
+        S.handlers[_time.time] = lambda S: now
+        o = S.outcome(KINDS[kind]["open"], token, bytes(32), b"aad", ttl)
+        return detail(o.exc) if o.raised and isinstance(o.exc, SExc) else ("accepted", None, None)
+
+    out = {
+        "failed_authentication": run(base64.b64encode(b"\x05" + bytes(48)), refuse),
+        "malformed_base64": run(b"!!!not-base64!!!", refuse),
+        "expired": run(base64.b64encode(b"genuine"), lambda S, raw, k, *, aad, version=1: genuine_payload(kind), now=10**9, ttl=1),
+    }
+    S.handlers, S.inline = saved, saved_inline
+    S.trace.clear()
+    return out
+
+
+def oblige_uniform(S, kind, D, ref):
+    """The property's 'no detail distinguishing which check failed', literally: every class answers what a failed
+    authentication of the cursor token answers."""
+    for cls in CLASSES:
+        S.inputs["scenario"] = f"{kind}:{cls}"
+        S.oblige(f"O7.uniform.{cls}_indistinguishable_from_a_failed_cursor_authentication", same_detail(D[cls], ref), kind="post", witness=f"{kind}:{cls}")
+    S.inputs.pop("scenario", None)
+
+
+def py_scenario(kind, cls):
+    """Native counterpart of class_details: real tokens, real crypto."""
+    key, aad, call_id = bytes(32), b"aad", bytes(16)
+    now, ttl = 10**9, (1 if cls == "expired" else 0)
+    if kind == "cursor":
+        tok = st._seal_cursor_token(b"state", call_id, key, aad, 0)
+    else:
+        tok = st._seal_call_token(b"cs", "T", b"sch", b"in", call_id, "sid", key, aad, 0)
+    if cls == "failed_authentication":
+        raw = bytearray(base64.b64decode(tok))
+        raw[-1] ^= 1
+        tok = base64.b64encode(bytes(raw))
+    elif cls == "malformed_base64":
+        tok = b"!!!not-base64!!!"
+    with patched_clock(now):
+        try:
+            KINDS[kind]["open"](tok, key, aad, ttl)
+        except Exception as e:
+            return py_detail(e)
+    return ("accepted", None, None)
+
+
+def replay_scenario(inputs):
+    sc = inputs.get("scenario")
+    if not sc:
+        return None
+    kind, cls = sc.split(":")
+    got, ref = py_scenario(kind, cls), py_scenario("cursor", "failed_authentication")
+    return ReplayResult(got != ref, f"{kind} token, class {cls}: the client sees {got}; a cursor token failing authentication gives {ref}")
 
 
 def py_400(e):
@@ -409,7 +527,6 @@ def judge_open(kind, token, key, aad, ttl, now, expect_plain=None):
     """Run the real opener natively and judge totality / re-encoding / TTL / 400 / uniformity."""
     import struct
 
-    ref = py_reference()
     with patched_clock(now):
         try:
             r = KINDS[kind]["open"](token, key, aad, ttl)
@@ -434,19 +551,18 @@ def judge_open(kind, token, key, aad, ttl, now, expect_plain=None):
         problems.append(f"fields {r!r} do not re-encode to the plaintext {plain!r}")
     if ttl > 0 and now - created > ttl:
         problems.append(f"accepted with age {now - created} > ttl {ttl}")
-    del ref
     return bool(problems), f"accepted -> {r!r}; " + "; ".join(problems), None
 
 
 def replay_open_any(kind):
     def replay(inputs, ob):
+        rr = replay_scenario(inputs)
+        if rr is not None:
+            return rr
         key, aad, ttl, now = inputs["key"], inputs["aad"], inputs["ttl"], inputs["now"]
         mode = inputs.get("aead", "accepts")
-        ref = py_reference()
         if inputs.get("b64") == "invalid":
             bad, msg, e = judge_open(kind, b"!!!not-base64!!!", key, aad, ttl, now)
-            if not bad and e is not None and py_detail(e) != ref:
-                return ReplayResult(True, f"malformed base64 is distinguishable from a failed authentication: {py_detail(e)} vs {ref}")
             return ReplayResult(bad, msg)
         payload = inputs.get("plaintext", b"")
         tok = native_token(kind, payload, key, aad)
@@ -491,8 +607,12 @@ def open_any(kind):
     def run(S):
         S.prune_lia = True  # byte-parsing code: reachability is decided by lengths (pyvc/prune.py)
         install_codecs(S)
+        D = class_details(S, kind)
+        ref = D["failed_authentication"] if kind == "cursor" else class_details(S, "cursor")["failed_authentication"]
+        oblige_uniform(S, kind, D, ref)
         now = install_clock(S)
-        ref = reference_rejection(S)
+        if kind == "call":
+            install_read_segment_contract(S)
         tok, key, aad, ttl = S.bytes("token"), S.bytes("key"), S.bytes("aad"), S.int("ttl")
         P = {}
 
@@ -511,15 +631,27 @@ def open_any(kind):
         for _, raw, k, a, v in S.events("aead_open"):
             S.oblige(f"O6.{kind}.aead_checks_the_presented_token_under_the_given_key_and_aad", And(eq(raw, B(B64D(tok.t))), k is key, a is aad), kind="pre")
         if out.raised:
+            if kind == "call" and exc_is(out.exc, UnicodeDecodeError) and "p" in P:
+                # an authenticated plaintext whose text segments are not UTF-8: outside the seal image of
+                # _seal_call_token (both are str.encode() results; the round-trip unit proves genuine tokens never get here)
+                S.note("call-token text segments that are not UTF-8 raise UnicodeDecodeError: outside the seal image (ASSUMPTIONS)")
+                return
             S.oblige(f"O7.{kind}.rejects_only_with_http_400", is_400(out.exc), kind="raises")
             if not is_400(out.exc):
-                if exc_is(out.exc, UnicodeDecodeError) and kind == "call":
-                    S.note("call-token text segments that are not UTF-8 raise UnicodeDecodeError: outside the seal image (ASSUMPTIONS)")
                 return
+            # every rejection of a class carries the detail of the class representative (so the concrete uniformity
+            # obligations above speak for every token of the class)
+            cls = None
             if S.events("b64_invalid"):
-                S.oblige("O7.uniform.malformed_base64_indistinguishable_from_failed_authentication", same_detail(detail(out.exc), ref), kind="post", witness=f"{kind}:malformed_base64")
+                S.canary(f"O7.{kind}.canary.base64_never_rejected", SBool(B64V(tok.t)))
+                cls = "malformed_base64"
             elif "p" not in P:
-                S.oblige("O7.uniform.failed_authentication_detail", same_detail(detail(out.exc), ref), kind="post", witness=f"{kind}:failed_authentication")
+                cls = "failed_authentication"
+            elif S.events("clock_read"):
+                cls = "expired"  # the clock is read only by the TTL check: a rejection after it is the expiry rejection
+                S.oblige(f"O5.{kind}.rejected_after_the_clock_read_only_when_expired", And(ttl > 0, now - created_of(unpacked(S, P["p"])) > ttl))
+            if cls is not None:
+                S.oblige(f"O7.{kind}.rejection_detail_depends_only_on_the_failed_check", same_detail(detail(out.exc), D[cls]), kind="post", witness=f"{kind}:{cls}:path")
             return
         p = P.get("p")
         S.oblige(f"O6.{kind}.accepts_only_after_aead_open", p is not None, kind="trace")
@@ -532,11 +664,20 @@ def open_any(kind):
         else:
             cs, ty, sch, isch, call_id, sid = out.value
             segs = [cs, B(models.UTF8_ENC(ty.t)), sch, isch, B(models.UTF8_ENC(sid.t))]
-        S.oblige(f"O4.{kind}.call_id_is_16_bytes", call_id.length() == 16)
-        S.oblige(f"O4.{kind}.fields_reencode_to_the_plaintext", eq(plain, reencode(plain, call_id, segs)))
+        # the returned fields are exactly the slices of the authenticated plaintext, each length header equals the
+        # length of its segment, and the segments tile the plaintext (so re-encoding the fields gives the plaintext back)
+        n = plain.length()
+        S.oblige(f"O4.{kind}.call_id_is_plaintext_8_to_24", And(n >= 24, eq(call_id, B(sub(plain.t, 8, 16)))))
+        pos = SInt(z3.IntVal(24))
+        for j, seg in enumerate(segs):
+            S.oblige(f"O4.{kind}.segment{j}_header_is_its_length", SInt(models._UNLE[4](sub(plain.t, pos, 4))) == seg.length())
+            S.oblige(f"O4.{kind}.segment{j}_is_the_slice_after_its_header", eq(seg, B(sub(plain.t, pos + 4, seg.length()))))
+            S.oblige(f"O4.{kind}.segment{j}_inside_the_plaintext", pos + 4 + seg.length() <= n)
+            pos = pos + 4 + seg.length()
+        S.oblige(f"O4.{kind}.segments_tile_the_plaintext", pos == n)
         S.oblige(f"O5.{kind}.accepted_only_within_ttl", Or(ttl <= 0, now - created_of(plain) <= ttl))
-        S.canary(f"O5.{kind}.canary.accepted_only_when_fresh", now <= created_of(plain))
-        S.canary(f"O4.{kind}.canary.first_segment_always_empty", segs[0].length() == 0)
+        if kind == "cursor":
+            S.canary(f"O5.{kind}.canary.accepted_only_when_fresh", now <= created_of(plain))
 
     return run
 
@@ -591,7 +732,6 @@ def replay_roundtrip(kind):
             tok = KINDS[kind]["seal"](*args)
         except UnicodeEncodeError:
             return ReplayResult(False, "model string not encodable (surrogates)")
-        ref = py_reference()
         with patched_clock(now):
             try:
                 got = KINDS[kind]["open"](tok, key, aad, ttl)
@@ -602,8 +742,6 @@ def replay_roundtrip(kind):
                     problems.append(f"raised {type(e).__name__}")
                 if not expired:
                     problems.append("genuine unexpired token rejected")
-                if py_detail(e) != ref:
-                    problems.append(f"an expired token is distinguishable from a failed authentication: {py_detail(e)} vs {ref}")
                 return ReplayResult(bool(problems), f"{kind} created={created} now={now} ttl={ttl}: " + "; ".join(problems))
         problems = []
         if tuple(got) != want:
@@ -616,15 +754,17 @@ def replay_roundtrip(kind):
 
 
 def roundtrip(kind):
+    """Seal side + composition.  (B) the real _seal_*_token frames  created_at | call_id | (len, segment)*  and
+    packs / seals / base64s exactly that; unpack inverts pack.  (A) is the opener's contract proved in the
+    'arbitrary presented token' unit for every authenticated plaintext: the returned fields tile the
+    plaintext with consistent headers.  (C) tiling is unique, proved here segment by segment (S.lemma),
+    so opening a genuine token returns exactly the sealed fields and the minting time."""
     K = KINDS[kind]
 
     def run(S):
         S.prune_lia = True  # byte-parsing code: reachability is decided by lengths (pyvc/prune.py)
         install_codecs(S)
-        now = install_clock(S)
-        ref = reference_rejection(S)
         args, fields, call_id, key, aad, created = seal_args(S, kind)
-        ttl = S.int("ttl")
         G = {}
 
         def aead_seal(S, payload, k, *, aad, version=1):
@@ -632,34 +772,119 @@ def roundtrip(kind):
             S.event("aead_seal")
             return G["raw"]
 
-        def aead_open(S, raw, k, *, aad, version=1):
-            # idealised AEAD + verified envelope framing: opens iff this is the sealed envelope, same key, AAD, version
-            if S.fork(And(eq(raw, G["raw"]), eq(k, G["key"]), eq(aad, G["aad"]), version == G["version"])):
-                return G["payload"]
-            raise PyRaise(SExc(crypto.SealError, ("token verification failed",)))
+        def pack(S, plaintext):
+            G["plain"] = plaintext
+            return S.call(st._pack_plaintext, plaintext)
 
         S.handlers[crypto.seal_bytes] = aead_seal
-        S.handlers[crypto.open_bytes] = aead_open
+        S.handlers["_pack_plaintext"] = pack
+        S.inline.discard("_pack_plaintext")
         sealed = S.outcome(K["seal"], *args)
-        S.oblige(f"O4c.{kind}.seal_total_under_its_preconditions", sealed.returned and len(S.events("aead_seal")) == 1, kind="raises")
-        if not (sealed.returned and G):
+        S.oblige(f"O4c.{kind}.seal_total_under_its_preconditions", sealed.returned and len(S.events("aead_seal")) == 1 and "plain" in G, kind="raises")
+        if not (sealed.returned and "raw" in G and "plain" in G):
             return
-        tok = sealed.value
+        tok, plain = sealed.value, G["plain"]
         S.oblige(f"O9.{kind}.token_is_base64_of_the_aead_envelope_only", eq(tok, B(B64E(G["raw"].t))))
         S.oblige(f"O2.{kind}.seal_uses_the_given_key_and_aad", And(G["key"] is key, G["aad"] is aad), kind="pre")
-        out = S.outcome(K["open"], tok, key, aad, ttl)
-        if out.returned:
-            want = tuple(fields[:1] + [call_id]) if kind == "cursor" else (fields[0], fields[1], fields[2], fields[3], call_id, fields[4])
-            S.oblige(f"O4c.{kind}.open_inverts_seal", isinstance(out.value, tuple) and len(out.value) == len(want) and And(*[eq(x, y) for x, y in zip(out.value, want)]))
-            S.oblige(f"O5.{kind}.genuine_token_accepted_only_within_ttl", Or(ttl <= 0, now - created <= ttl))
-            S.canary(f"O5.{kind}.canary.never_accepts_at_the_ttl_boundary", Not(And(ttl > 0, now - created == ttl)))
-            return
-        S.oblige(f"O7.{kind}.expired_rejected_with_http_400", is_400(out.exc), kind="raises")
-        S.oblige(f"O5.{kind}.genuine_token_rejected_only_when_expired", And(ttl > 0, now - created > ttl))
-        if is_400(out.exc):
-            S.oblige("O7.uniform.expired_indistinguishable_from_failed_authentication", same_detail(detail(out.exc), ref), kind="post", witness=f"{kind}:expired")
+        segs = [f if isinstance(f, SBytes) else B(models.UTF8_ENC(f.t)) for f in fields]
+        layout = [models._LE[8](created.t), call_id.t]
+        for sg in segs:
+            layout += [models._LE[4](z3.Length(sg.t)), sg.t]
+        S.oblige(f"O4c.{kind}.plaintext_is_created_callid_then_length_prefixed_segments", eq(plain, B(z3.Concat(*layout))))
+        # (C) uniqueness of the tiling (unit L0b, on exactly this layout shape) then gives: opening returns the sealed fields
+        n = plain.length()
+        S.oblige(f"O4c.{kind}.layout_has_one_segment_per_field", len(segs) == K["nseg"], kind="post")
 
     return run
+
+
+@unit("C12.L0 slice of a concatenation at a part boundary (string lemma used by O4c)", targets=["vgi_rpc/http/server/_state_token.py::_seal_call_token"], min_obligations=1)
+def slice_of_concat(S):
+    a, b, c = z3.String("A"), z3.String("B"), z3.String("C")
+    S.oblige("L0.slice_of_concat", SBool(sub(z3.Concat(a, b, c), z3.Length(a), z3.Length(b)) == b), kind="lemma")
+    v, nn, bd = z3.String("V"), z3.String("N"), z3.String("Bd")
+    env = z3.Concat(v, nn, bd)
+    hyp = z3.And(z3.Length(v) == 1, z3.Length(nn) == 24)
+    for nm, goal in (("nonce", sub(env, 1, 24) == nn), ("body", sub(env, 25, z3.Length(env) - 25) == bd), ("version", sub(env, 0, 1) == v)):
+        S.oblige(f"L0.opener_slice_of_an_envelope_is_its_{nm}", SBool(z3.Implies(hyp, goal)), kind="lemma")
+    S.canary("L0.canary.slice_ignores_its_offset", SBool(sub(z3.Concat(a, b, c), z3.Length(c), z3.Length(b)) == b))
+
+
+BYTES = z3.DeclareSort("AbstractBytes")
+SLICE = z3.Function("slice", BYTES, z3.IntSort(), z3.IntSort(), BYTES)
+LEN = z3.Function("len", BYTES, z3.IntSort())
+ALE4 = z3.Function("abs_le4", z3.IntSort(), BYTES)
+AUNLE4 = z3.Function("abs_unle4", BYTES, z3.IntSort())
+ALE8 = z3.Function("abs_le8", z3.IntSort(), BYTES)
+AUNLE8 = z3.Function("abs_unle8", BYTES, z3.IntSort())
+
+
+def tiling(k):
+    """(C) uniqueness of the tiling.  The string solvers cannot chain "slice of a concatenation at a part
+    boundary" through five symbolic offsets (100 s and no answer), so the argument is made once over
+    *uninterpreted* slice/len (valid for every interpretation, in particular str.substr/str.len): the only
+    facts used are the instances  slice(plain, |A|, |B|) = B  for plain = A ++ B ++ C  (lemma L0, proved for
+    arbitrary strings) and the struct facts |le4(n)| = 4, unle4(le4(n)) = n.  If (c2, t0..) satisfy the
+    opener's contract (A) on  plain = H(8) ++ C(16) ++ le4(|s0|) ++ s0 ++ ...  then c2 = C, t_j = s_j, and the
+    created_at read back is the sealed one."""
+
+    def run(S):
+        plain, H, C, c2 = (z3.Const(nm, BYTES) for nm in ("plain", "H", "C", "c2"))
+        created = S.int("created_at")
+        ss = [z3.Const(f"s{j}", BYTES) for j in range(k)]
+        Ls = [ALE4(LEN(x)) for x in ss]
+        layout = [H, C]
+        for x, L in zip(ss, Ls):
+            layout += [L, x]
+        S.assume(And(SBool(LEN(H) == 8), SBool(LEN(C) == 16), SBool(H == ALE8(created.t)), SBool(AUNLE8(H) == created.t)))
+        for x, L in zip(ss, Ls):
+            S.assume(And(SBool(LEN(x) >= 0), SBool(LEN(L) == 4), SBool(AUNLE4(L) == LEN(x))))
+        start = SInt(z3.IntVal(0))
+        for part in layout:  # instances of L0: the slice of plain = A ++ part ++ C' at |A| of length |part| is part
+            S.assume(SBool(SLICE(plain, start.t, LEN(part)) == part))
+            start = start + SInt(LEN(part))
+        n = start  # |plain|
+        S.assume(SBool(c2 == SLICE(plain, 8, 16)))
+        S.oblige(f"L0b.{k}.opened_call_id_is_the_sealed_one", SBool(c2 == C), kind="lemma")
+        S.oblige(f"L0b.{k}.opened_created_at_is_the_sealed_one", SBool(AUNLE8(SLICE(plain, 0, 8)) == created.t), kind="lemma")
+        pos = SInt(z3.IntVal(24))
+        for j in range(k):
+            t = z3.Const(f"t{j}", BYTES)
+            S.assume(And(SBool(AUNLE4(SLICE(plain, pos.t, 4)) == LEN(t)), SBool(t == SLICE(plain, (pos + 4).t, LEN(t)))))
+            S.oblige(f"L0b.{k}.opened_segment{j}_is_the_sealed_one", SBool(t == ss[j]), kind="lemma")
+            pos = pos + 4 + SInt(LEN(t))
+        S.oblige(f"L0b.{k}.segments_tile_the_plaintext", pos == n, kind="lemma")
+        S.canary(f"L0b.{k}.canary.first_segment_is_empty", SBool(LEN(ss[0]) == 0))
+
+    return run
+
+
+unit("C12.L0b tiling of a cursor plaintext (1 segment) is unique", targets=["vgi_rpc/http/server/_state_token.py::_open_cursor_token"], min_obligations=5)(tiling(1))
+unit("C12.L0b tiling of a call plaintext (5 segments) is unique", targets=["vgi_rpc/http/server/_state_token.py::_open_call_token"], min_obligations=8)(tiling(5))
+
+
+def replay_pack(inputs, ob):
+    x = inputs["framed_plaintext"]
+    try:
+        y = st._unpack_plaintext(st._pack_plaintext(x))
+    except Exception as e:
+        return ReplayResult(True, f"_unpack_plaintext(_pack_plaintext({x!r})) raised {type(e).__name__}: {e}")
+    return ReplayResult(y != x, f"_unpack_plaintext(_pack_plaintext({x!r})) = {y!r}")
+
+
+@unit("C12.O4c _unpack_plaintext inverts _pack_plaintext", targets=["vgi_rpc/http/server/_state_token.py::_pack_plaintext", "vgi_rpc/http/server/_state_token.py::_unpack_plaintext"], replay=replay_pack, min_obligations=2)
+def pack_unpack(S):
+    install_codecs(S)
+    x = S.bytes("framed_plaintext")
+    S.assume(x.length() <= MAXP)
+    packed = S.outcome(st._pack_plaintext, x)
+    S.oblige("O4c.pack_is_total", packed.returned, kind="raises")
+    if not packed.returned:
+        return
+    S.oblige("O4c.packed_payload_starts_with_a_codec_tag", packed.value.length() >= 1)
+    un = S.outcome(st._unpack_plaintext, packed.value)
+    S.oblige("O4c.unpack_inverts_pack", un.returned and eq(un.value, x))
+    S.canary("O4c.canary.packing_never_compresses", eq(packed.value, B(z3.Concat(z3.StringVal("\x00"), x.t))))
 
 
 unit(
@@ -674,3 +899,359 @@ unit(
     replay=replay_roundtrip("call"),
     min_obligations=8,
 )(roundtrip("call"))
+
+
+# ------------------------------------------------------------------------------------------
+# O2 seal sites: the mint functions bind the identity's AAD, the server key and the minting time
+# ------------------------------------------------------------------------------------------
+
+
+def install_seal_contracts(S):
+    """_seal_cursor_token / _seal_call_token by contract: they seal exactly their arguments (units O4c)."""
+
+    def seal_cursor(S, state_bytes, call_id, token_key, aad, created_at):
+        tok = SBytes(z3.String(S.fresh_name("cursor_token")))
+        S.event("seal_cursor", tok, state_bytes, call_id, token_key, aad, created_at)
+        return tok
+
+    def seal_call(S, cs_bytes, cs_type, schema_bytes, input_schema_bytes, call_id, stream_id, token_key, aad, created_at):
+        tok = SBytes(z3.String(S.fresh_name("call_token")))
+        S.event("seal_call", tok, cs_bytes, call_id, token_key, aad, created_at, stream_id)
+        return tok
+
+    S.handlers["_seal_cursor_token"] = seal_cursor
+    S.handlers["_seal_call_token"] = seal_call
+    S.inline.update({"_compute_aad", "_compute_call_aad"})
+
+
+@unit(
+    "C12.O2 mint sites seal under the minting identity's AAD, the given key and the current time",
+    targets=["vgi_rpc/http/server/_state_token.py::_mint_cursor_token", "vgi_rpc/http/server/_state_token.py::_mint_call_token"],
+    min_obligations=20,
+)
+def mint_sites(S):
+    S.prune_lia = True
+    install_seal_contracts(S)
+    now = install_clock(S)
+    shape = AUTH_SHAPES[S.choose(len(AUTH_SHAPES))]
+    auth, ident = mk_auth(S, "1", shape)
+    key = S.bytes("key")
+    which = ["cursor", "call", "call_without_state"][S.choose(3)]
+    S.handlers["_serialize_state_bytes"] = lambda S, state, info: S.bytes("state_bytes")
+    S.handlers[os.urandom] = lambda S, k: _fresh_bytes(S, "random", k)
+    S.handlers["Ser.serialize_to_bytes"] = lambda S, o: S.bytes("call_state_bytes")
+    S.handlers["Schema.serialize"] = lambda S, o: SObj(None, kind="Buf")
+    S.handlers["Buf.to_pybytes"] = lambda S, o: S.bytes("schema_bytes")
+    if which == "cursor":
+        call_id = S.bytes("call_id")
+        out = invoke(S, st._mint_cursor_token, SObj(None, kind="State"), SObj(None, kind="Info"), call_id, key, auth)
+        evs = S.events("seal_cursor")
+        want_aad = invoke(S, st._compute_aad, auth).value
+    else:
+        cs = SObj(_CallStateStub) if which == "call" else None
+        S.handlers["_CallStateStub.serialize_to_bytes"] = lambda S, o: S.bytes("call_state_bytes")
+        out = invoke(S, st._mint_call_token, cs, SObj(None, kind="Schema"), SObj(None, kind="Schema"), key, auth, S.str("stream_id"))
+        evs = S.events("seal_call")
+        want_aad = invoke(S, st._compute_call_aad, auth).value
+    S.oblige(f"O2.{which}.mint_seals_exactly_once", out.returned and len(evs) == 1, kind="trace")
+    if not (out.returned and len(evs) == 1):
+        return
+    ev = evs[0]
+    S.oblige(f"O2.{which}.sealed_under_the_server_key", ev[4] is key, kind="trace")
+    S.oblige(f"O2.{which}.sealed_under_the_minting_identity_aad", eq(ev[5], want_aad))
+    S.oblige(f"O2.{which}.created_at_is_the_minting_time", eq(ev[6], now))
+    S.oblige(f"O2.{which}.mint_returns_the_sealed_token", out.value[0] is ev[1], kind="trace")
+    if which != "cursor":
+        S.oblige("O2.call.call_id_is_16_fresh_bytes_and_is_returned", And(ev[3].length() == 16, out.value[1] is ev[3]))
+    S.canary(f"O2.{which}.canary.minted_at_the_epoch", eq(ev[6], 0))
+
+
+class _CallStateStub:
+    """Stands for a user call-state dataclass: only its class name and serialize_to_bytes are used."""
+
+    def serialize_to_bytes(self):  # pragma: no cover - replaced by a handler
+        raise NotImplementedError
+
+
+def _fresh_bytes(S, name, k):
+    b = SBytes(z3.String(S.fresh_name(name)))
+    S.assume(And(SBool(is_bytes_term(b.t)), b.length() == k))
+    return b
+
+
+# ------------------------------------------------------------------------------------------
+# O6 resolution order in _unpack_and_recover_state (+ _resolve_call_from_token), O7 every rejection is HTTP 400
+# ------------------------------------------------------------------------------------------
+
+import pyarrow as pa  # noqa: E402
+
+from vgi_rpc.rpc._common import _current_stream_id  # noqa: E402
+
+PROTECTED = ("cache.get", "cache.put", "open_call", "read_schema", "declared_types", "deserialize_call_state", "resolve_state_cls", "deserialize_state", "bind_call_state", "rehydrate")
+
+
+def hook(S, name, *args, exc=RuntimeError):
+    """A user hook / library call with arbitrary behaviour: records the event, then returns or raises."""
+    S.event(name, *args)
+    if S.choose(2) == 1:
+        raise PyRaise(SExc(exc, (f"{name} failed",)))
+
+
+def install_token_openers(S, cursor_outcomes=("accept", "reject"), call_outcomes=("accept", "reject")):
+    """_open_cursor_token / _open_call_token by contract (units O4b/O5/O7 + the assumed AEAD): HTTP 400, or the
+    fields of a plaintext sealed under the same key and AAD (ghost witness recorded in the event)."""
+
+    def open_cursor(S, token, token_key, aad, token_ttl=0):
+        if cursor_outcomes[S.choose(len(cursor_outcomes))] == "reject":
+            S.event("open_cursor_rejected", token, token_key, aad, token_ttl)
+            raise PyRaise(rpc_400("token rejected"))
+        state_bytes, call_id = S.bytes("state_bytes"), S.bytes("cursor_call_id")
+        S.event("open_cursor_ok", token, token_key, aad, token_ttl, state_bytes, call_id)
+        return (state_bytes, call_id)
+
+    def open_call(S, token, token_key, aad, token_ttl=0):
+        S.event("open_call", token, token_key, aad, token_ttl)
+        if call_outcomes[S.choose(len(call_outcomes))] == "reject":
+            raise PyRaise(rpc_400("token rejected"))
+        r = (S.bytes("call_state_bytes"), S.str("call_state_type"), S.bytes("schema_bytes"), S.bytes("input_schema_bytes"), S.bytes("token_call_id"), S.str("stream_id"))
+        S.event("open_call_ok", token, token_key, aad, token_ttl, r)
+        return r
+
+    S.handlers["_open_cursor_token"] = open_cursor
+    S.handlers["_open_call_token"] = open_call
+    S.inline.update({"_compute_aad", "_compute_call_aad"})
+
+
+def mk_app(S):
+    key, ttl = S.bytes("token_key"), S.int("token_ttl")
+    impl = SObj(None, kind="Impl")
+    server = SObj(None, kind="Server", ipc_validation=S.opaque("ipc_validation", "IpcValidation"), implementation=impl)
+    cache = SObj(None, kind="Cache")
+    app = SObj(None, kind="App", _token_key=key, _token_ttl=ttl, _call_state_cache=cache, _server=server)
+    return app, key, ttl, impl
+
+
+def install_recovery_world(S, cache_outcomes=("hit", "miss")):
+    """Everything _unpack_and_recover_state / _resolve_call_from_token touch besides the token openers."""
+    W = {}
+
+    def cache_get(S, c, call_id, auth, now):
+        S.event("cache.get", call_id, auth)
+        if cache_outcomes[S.choose(len(cache_outcomes))] == "hit":
+            W["hit"] = SObj(None, kind="Resolved", call_state=S.opaque("cached_call_state", "CallState"), output_schema=SObj(None, kind="Schema"), input_schema=SObj(None, kind="Schema"), stream_id=S.str("cached_stream_id"))
+            return W["hit"]
+        return None
+
+    S.handlers["Cache.get"] = cache_get
+    S.handlers["Cache.put"] = lambda S, c, call_id, auth, resolved, now: S.event("cache.put", call_id, auth, resolved)
+    S.handlers[secrets.compare_digest] = lambda S, a, b: eq(a, b)
+    S.handlers[pa.py_buffer] = lambda S, b: b
+
+    def read_schema(S, buf):
+        hook(S, "read_schema", buf, exc=pa.ArrowInvalid)
+        return SObj(None, kind="Schema")
+
+    S.handlers[pa.ipc.read_schema] = read_schema
+
+    def declared(S, state_info):
+        S.event("declared_types", state_info)
+        return SObj(None, kind="TypeMap")
+
+    def typemap_get(S, m, name):
+        if S.choose(2) == 1:
+            return None
+        return SObj(None, kind="CallStateCls")
+
+    def deser_call_state(S, cls, data, validation):
+        hook(S, "deserialize_call_state", data)
+        return S.opaque("call_state", "CallState")
+
+    S.handlers["_declared_call_state_types"] = declared
+    S.handlers["TypeMap.get"] = typemap_get
+    S.handlers["CallStateCls.deserialize_from_bytes"] = deser_call_state
+    S.inline.update({"_ResolvedCall", "_resolve_call_from_token"})
+    S.handlers[_current_stream_id.set] = lambda S, v: None
+    state_obj = SObj(None, kind="State")
+    W["state"] = state_obj
+
+    def resolve_state_cls(S, data, state_info):
+        hook(S, "resolve_state_cls", data)
+        return (SObj(None, kind="StateCls"), data)
+
+    def deserialize_state(S, cls, raw, validation):
+        hook(S, "deserialize_state", raw)
+        return state_obj
+
+    S.handlers["_resolve_state_cls"] = resolve_state_cls
+    S.handlers["_deserialize_state_bytes"] = deserialize_state
+    S.handlers["State.bind_call_state"] = lambda S, st_, cs: hook(S, "bind_call_state", cs)
+    S.handlers["State.rehydrate"] = lambda S, st_, impl: hook(S, "rehydrate", impl)
+    return W
+
+
+def check_resolution_order(S, trace, app_key, app_ttl, auth, token, call_token, prefix="O6"):
+    """Trace obligations shared by the O6 unit and C13's harness."""
+    names = [e[0] for e in trace]
+    opens = [i for i, n in enumerate(names) if n == "open_cursor_ok"]
+    first_protected = next((i for i, n in enumerate(names) if n in PROTECTED), None)
+    if first_protected is not None:
+        S.oblige(f"{prefix}.cursor_token_opened_before_any_lookup_deserialisation_or_hook", bool(opens) and opens[0] < first_protected, kind="trace", witness=names[first_protected])
+    want_aad = invoke(S, st._compute_aad, auth)
+    want_call_aad = invoke(S, st._compute_call_aad, auth)
+    for e in trace:
+        if e[0] in ("open_cursor_ok", "open_cursor_rejected"):
+            S.oblige(f"{prefix}.cursor_opened_under_the_server_key_the_requests_own_aad_and_the_ttl", And(e[1] is token, e[2] is app_key, eq(e[3], want_aad.value), e[4] is app_ttl), kind="trace")
+        if e[0] == "open_call":
+            S.oblige(f"{prefix}.call_token_opened_under_the_server_key_the_requests_own_call_aad_and_the_ttl", And(e[1] is call_token, e[2] is app_key, eq(e[3], want_call_aad.value), e[4] is app_ttl), kind="trace")
+    ok = [e for e in trace if e[0] == "open_cursor_ok"]
+    for e in trace:
+        if e[0] in ("cache.get", "cache.put"):
+            S.oblige(f"{prefix}.cache_is_keyed_by_the_authenticated_call_id_and_the_requests_identity", bool(ok) and e[1] is ok[0][6] and e[2] is auth, kind="trace")
+    puts = [e for e in trace if e[0] == "cache.put"]
+    call_ok = [e for e in trace if e[0] == "open_call_ok"]
+    for e in puts:
+        S.oblige(f"{prefix}.cache_put_only_after_the_call_token_opened", bool(call_ok) and names.index("open_call_ok") < names.index("cache.put"), kind="trace")
+        if call_ok and ok:
+            S.oblige(f"{prefix}.cache_put_only_when_the_call_ids_match", eq(call_ok[0][5][4], ok[0][6]))
+    return ok, call_ok, puts
+
+
+@unit(
+    "C12.O6 resolution order in _unpack_and_recover_state; O7 every rejection is HTTP 400",
+    targets=["vgi_rpc/http/server/_app_stream.py::_unpack_and_recover_state", "vgi_rpc/http/server/_app_stream.py::_resolve_call_from_token"],
+    min_obligations=200,
+    max_paths=3000,
+)
+def resolution_order(S):
+    S.prune_lia = True
+    install_codecs(S)
+    ref = reference_rejection(S)
+    install_clock(S)
+    install_token_openers(S)
+    W = install_recovery_world(S)
+    app, key, ttl, impl = mk_app(S)
+    shape = ["none", "unauth", "dp"][S.choose(3)]
+    auth, ident = mk_auth(S, "1", shape)
+    token = S.bytes("token")
+    call_token = S.bytes("call_token") if S.choose(2) == 0 else None
+    info = SObj(None, kind="StateInfo")
+    out = invoke(S, aps._unpack_and_recover_state, app, token, call_token, info, auth)
+    ok, call_ok, puts = check_resolution_order(S, S.trace, key, ttl, auth, token, call_token)
+    names = [e[0] for e in S.trace]
+    S.oblige("O6.cursor_token_is_always_examined_first", names[:1] in (["open_cursor_ok"], ["open_cursor_rejected"]), kind="trace")
+    if out.raised:
+        S.oblige("O7.every_rejection_is_http_400", is_400(out.exc), kind="raises")
+        if not ok:
+            S.oblige("O6.rejected_cursor_token_stops_everything", len(names) == 1, kind="trace")
+        if is_400(out.exc) and call_ok and not puts and "read_schema" not in names:
+            # the call token opened but its call id is not the cursor's: a cross-stream pair
+            S.oblige("O7.uniform.cross_stream_pair_indistinguishable_from_failed_authentication", same_detail(detail(out.exc), ref), kind="post", witness="cross_stream")
+        return
+    state_obj, resolved, call_id, state_bytes = out.value
+    S.oblige("O6.accepts_only_after_cursor_open", bool(ok), kind="trace")
+    if not ok:
+        return
+    S.oblige("O6.returns_the_authenticated_call_id_and_state_bytes", call_id is ok[0][6] and state_bytes is ok[0][5], kind="trace")
+    S.oblige("O6.state_is_deserialised_from_the_authenticated_bytes", any(e[0] == "deserialize_state" and e[1] is ok[0][5] for e in S.trace) and any(e[0] == "resolve_state_cls" and e[1] is ok[0][5] for e in S.trace), kind="trace")
+    if "hit" in W:
+        S.oblige("O6.cache_hit_uses_the_cached_call_and_consults_no_call_token", resolved is W["hit"] and not call_ok and "open_call" not in names, kind="trace")
+    else:
+        S.oblige("O6.cache_miss_requires_an_opened_call_token", bool(call_ok) and len(puts) == 1 and puts[0][3] is resolved, kind="trace")
+    S.oblige("O6.call_state_bound_is_the_resolved_one", any(e[0] == "bind_call_state" and e[1] is resolved.fields["call_state"] for e in S.trace), kind="trace")
+    S.oblige("O6.hooks_run_in_order_bind_then_rehydrate", names.index("bind_call_state") < names.index("rehydrate") and any(e[0] == "rehydrate" and e[1] is impl for e in S.trace), kind="trace")
+    S.canary("O6.canary.never_hits_the_cache", SBool(z3.BoolVal("hit" not in W)))
+
+
+# ------------------------------------------------------------------------------------------
+# O8 crypto.seal_bytes / open_bytes: envelope framing over the assumed AEAD primitive (_seal / _open)
+# ------------------------------------------------------------------------------------------
+
+SHA = z3.Function("sha256", STR, STR)
+
+
+def nk_spec(key):
+    """normalize_key from its docstring: a 32-byte key is used as is, any other length goes through SHA-256."""
+    return B(z3.If(z3.Length(key.t) == 32, key.t, SHA(key.t)))
+
+
+def replay_envelope(inputs, ob):
+    p, k, a, v = inputs["payload"], inputs["key"], inputs["aad"], inputs["version"]
+    try:
+        tok = crypto.seal_bytes(p, k, aad=a, version=v)
+    except ValueError:
+        return ReplayResult(0 <= v <= 255, f"seal_bytes(version={v}) raised ValueError")
+    k2, a2, v2 = inputs.get("key2", k), inputs.get("aad2", a), inputs.get("version2", v)
+    same = crypto.normalize_key(k2) == crypto.normalize_key(k) and a2 == a and v2 == v
+    try:
+        got = crypto.open_bytes(tok, k2, aad=a2, version=v2)
+    except crypto.SealError:
+        return ReplayResult(same, "open_bytes rejected" + (" a token sealed with the same key, AAD and version" if same else " (expected)"))
+    except Exception as e:
+        return ReplayResult(True, f"open_bytes raised {type(e).__name__}: {e}")
+    bad = got != p or not (crypto.normalize_key(k2) == crypto.normalize_key(k) and a2 == a)
+    return ReplayResult(bad, f"open_bytes -> {got!r} (sealed {p!r}); same key/aad/version = {same}; note: version byte is not authenticated")
+
+
+@unit(
+    "C12.O8 crypto.seal_bytes/open_bytes envelope framing over the assumed AEAD primitive",
+    targets=["vgi_rpc/crypto.py::seal_bytes", "vgi_rpc/crypto.py::open_bytes", "vgi_rpc/crypto.py::normalize_key"],
+    replay=replay_envelope,
+    min_obligations=10,
+)
+def envelope(S):
+    S.prune_lia = True
+    S.inline.add("normalize_key")
+    S.handlers[hashlib.sha256] = lambda S, data: SObj(None, kind="Sha", data=data)
+
+    def digest(S, h):
+        r = SHA(h.fields["data"].t)
+        S.assume(And(SBool(is_bytes_term(r)), SBool(z3.Length(r) == 32)))
+        return B(r)
+
+    S.handlers["Sha.digest"] = digest
+    S.handlers[os.urandom] = lambda S, k: _fresh_bytes(S, "nonce", k)
+    G = {}
+
+    def aead_seal(S, payload, key, aad, nonce):
+        body = SBytes(z3.String(S.fresh_name("ciphertext_and_tag")))
+        S.assume(And(SBool(is_bytes_term(body.t)), body.length() == payload.length() + 16))
+        G.update(payload=payload, key=key, aad=aad, nonce=nonce, body=body)
+        return body
+
+    def aead_open(S, body, key, aad, nonce):
+        S.event("aead_open", body, key, aad, nonce)
+        if G and S.fork(And(eq(body, G["body"]), eq(key, G["key"]), eq(aad, G["aad"]), eq(nonce, G["nonce"]))):
+            return G["payload"]
+        if not G and S.choose(2) == 1:
+            return S.bytes("earlier_plaintext")  # sealed earlier under this key, AAD and nonce
+        raise PyRaise(SExc(crypto.SealError, ("token verification failed",)))
+
+    S.handlers[crypto._seal] = aead_seal
+    S.handlers[crypto._open] = aead_open
+    mode = ["own_token", "arbitrary_token"][S.choose(2)]
+    key2, aad2, v2 = S.bytes("key2"), S.bytes("aad2"), S.int("version2")
+    if mode == "arbitrary_token":
+        tok = S.bytes("token")
+        out = S.outcome(crypto.open_bytes, tok, key2, aad=aad2, version=v2)
+        if out.raised:
+            S.oblige("O8.open_rejects_only_with_SealError", exc_is(out.exc, crypto.SealError), kind="raises")
+            S.canary("O8.canary.open_rejects_only_short_tokens", tok.length() < 41)
+            return
+        ev = S.events("aead_open")
+        S.oblige("O8.open_accepts_only_what_the_aead_accepts", len(ev) == 1, kind="trace")
+        if len(ev) == 1:
+            _, body, k, a, nonce = ev[0]
+            S.oblige("O8.open_checks_length_and_version_byte", And(tok.length() >= 41, SInt(z3.StrToCode(sub(tok.t, 0, 1))) == v2))
+            S.oblige("O8.open_passes_nonce_body_normalised_key_and_aad", And(eq(nonce, B(sub(tok.t, 1, 24))), eq(body, B(sub(tok.t, 25, tok.length() - 25))), eq(k, nk_spec(key2)), a is aad2))
+        return
+    payload, key, aad, version = S.bytes("payload"), S.bytes("key"), S.bytes("aad"), S.int("version")
+    sealed = S.outcome(crypto.seal_bytes, payload, key, aad=aad, version=version)
+    if sealed.raised:
+        S.oblige("O8.seal_rejects_only_a_version_outside_one_byte", exc_is(sealed.exc, ValueError) and Not(And(version >= 0, version <= 255)), kind="raises")
+        return
+    tok = sealed.value
+    S.oblige("O8.seal_uses_the_normalised_key_and_the_aad", And(eq(G["key"], nk_spec(key)), G["aad"] is aad, G["payload"] is payload, G["nonce"].length() == 24))
+    S.oblige("O8.envelope_is_version_nonce_body", eq(tok, B(z3.Concat(models._LE[1](version.t), G["nonce"].t, G["body"].t))))
+    # composition: lemmas L0.opener_slice_of_an_envelope_is_its_* (context-free, unit L0) shows the opener's slices of this envelope
+    # are the sealed nonce and body; with the opener's contract above and the AEAD contract the own token opens iff the
+    # normalised key, the AAD and the (unauthenticated) version byte agree
